@@ -62,8 +62,14 @@ class C09(Prop):
                 state["cands"].append(n)
                 return v
         sem = R()
-        with patched(mod.EECC, "compute_scores", wrapped), installed(sem):
-            cover = G.get_EECC()
+        hook = hasattr(mod.EECC, "compute_scores")       # where the picks are observed; without it the oracle still applies
+        if hook:
+            with patched(mod.EECC, "compute_scores", wrapped), installed(sem):
+                cover = G.get_EECC()
+        else:
+            with installed(sem):
+                cover = G.get_EECC()
+            state["picks"] = None
         return {"cover": sorted([sorted(c) for c in cover], key=lambda c: (-len(c), c)), "raw_cover": [list(c) for c in cover],
                 "has_edges_after": G.has_edges(), "picks": state["picks"], "lmc0": lmc0, "n_choice_calls": state["k"],
                 "candidate_set_sizes": state["cands"], "nodes": cc.nodes_of(case["edges"]),
@@ -74,6 +80,8 @@ class C09(Prop):
             return None          # the model's maximal cliques are a brute-force definition: large graphs are oracle-only
         if "exc" in obs:
             return {"op": "c09", "kind": "lmc", "edges": case["edges"], "nodes": cc.nodes_of(case["edges"]), "m0": case["m0"], "picks": []}
+        if obs["picks"] is None:
+            raise ValueError("EECC.compute_scores is gone: the sequence of picked cliques cannot be observed")
         return {"op": "c09", "edges": case["edges"], "nodes": obs["nodes"], "m0": case["m0"], "picks": obs["picks"]}
 
     def model(self, case, reply, obs):
